@@ -8,6 +8,7 @@
 import TrVerif.Props.C09Complete
 import TrVerif.Props.C04
 import TrVerif.Props.C03
+import TrVerif.Props.Attained
 namespace Tr
 
 def nvDs : Dataset :=
